@@ -39,6 +39,8 @@ struct LoopEnv {
     total_envs_at_loop_creation: usize,
 }
 
+static END_OF_STATEMENTS: parser::Stmt = parser::Stmt::EOS(0, String::new());
+
 pub struct Interpreter<'a, T: IO> {
     current: usize,
     statements: Vec<parser::Stmt>,
@@ -96,7 +98,7 @@ impl<'a, T: 'a + IO> Interpreter<'a, T> {
 
     pub fn run(&mut self) -> Result<(), PakhiErr> {
         loop {
-            if let  parser::Stmt::EOS(_, _) = self.statements[self.current] {
+            if let  parser::Stmt::EOS(_, _) = *self.stmt_at(self.current) {
                 break;
             }
             self.interpret()?;
@@ -113,8 +115,18 @@ impl<'a, T: 'a + IO> Interpreter<'a, T> {
         Ok(())
     }
 
+    // Statement at index i. Interpreter can move past last statement when program is
+    // malformed (block which is never closed, loop without closing আবার), every statement
+    // past the end counts as EOS
+    fn stmt_at(&self, i: usize) -> &parser::Stmt {
+        match self.statements.get(i) {
+            Some(stmt) => stmt,
+            None => &END_OF_STATEMENTS,
+        }
+    }
+
     fn interpret(&mut self) -> Result<(), PakhiErr> {
-        match self.statements[self.current].clone() {
+        match self.stmt_at(self.current).clone() {
             parser::Stmt::Print(expr, _, _) => self.interpret_print_stmt(expr)?,
             parser::Stmt::PrintNoEOL(expr, _, _) => self.interpret_print_no_eol(expr)?,
             parser::Stmt::Assignment(assign_stmt, _, _) => self.interpret_assign_stmt(assign_stmt)?,
@@ -134,9 +146,13 @@ impl<'a, T: 'a + IO> Interpreter<'a, T> {
 
             },
             parser::Stmt::Continue(_, _) => {
+                if self.loops.is_empty() {
+                    let (line, file_name) = self.extract_err_meta_stmt(self.current)?;
+                    return Err(RuntimeError(line, file_name, "আবার outside of loop".to_string()));
+                }
                 // destroying envs that was created inside loop
                 let last_loop_env_index = self.loops.len() - 1;
-                let total_envs_created_inside_loop = self.scopes.len() - self.loops[last_loop_env_index].total_envs_at_loop_creation;
+                let total_envs_created_inside_loop = self.scopes.len().saturating_sub(self.loops[last_loop_env_index].total_envs_at_loop_creation);
                 for _ in 0..total_envs_created_inside_loop {
                     self.scopes.pop();
                 }
@@ -145,7 +161,7 @@ impl<'a, T: 'a + IO> Interpreter<'a, T> {
 
                 self.current = loop_start;
             },
-            parser::Stmt::Break(_, _) => {
+            parser::Stmt::Break(break_line, break_file_name) => {
                 self.current += 1;
 
                 let mut total_envs_created_inside_loop = 0;
@@ -153,7 +169,7 @@ impl<'a, T: 'a + IO> Interpreter<'a, T> {
                 if self.loops.len() > 0 {
                     // destroying all envs that was created inside loop
                     let last_loop_env_index = self.loops.len() - 1;
-                    total_envs_created_inside_loop = self.scopes.len() - self.loops[last_loop_env_index].total_envs_at_loop_creation;
+                    total_envs_created_inside_loop = self.scopes.len().saturating_sub(self.loops[last_loop_env_index].total_envs_at_loop_creation);
                     for _ in 0..total_envs_created_inside_loop {
                         self.scopes.pop();
                     }
@@ -167,13 +183,16 @@ impl<'a, T: 'a + IO> Interpreter<'a, T> {
                 // blocks, nested loops and continue statements in later blocks are skipped
                 let mut open_blocks = total_envs_created_inside_loop;
                 loop {
-                    match self.statements[self.current] {
+                    match *self.stmt_at(self.current) {
                         parser::Stmt::BlockStart(_, _) => open_blocks += 1,
                         parser::Stmt::BlockEnd(_, _) => open_blocks = open_blocks.saturating_sub(1),
                         parser::Stmt::Continue(_, _) if open_blocks == 0 => {
                             // consuming Stmt::Continue
                             self.current += 1;
                             break;
+                        },
+                        parser::Stmt::EOS(_, _) => {
+                            return Err(RuntimeError(break_line, break_file_name, "থামাও outside of loop".to_string()));
                         },
                         _ => {},
                     }
@@ -188,6 +207,11 @@ impl<'a, T: 'a + IO> Interpreter<'a, T> {
                 self.scopes.push(HashMap::new());
             },
             parser::Stmt::BlockEnd(_, _) => {
+                if self.scopes.len() <= 1 {
+                    // only root scope is left, this BlockEnd doesn't close any block
+                    let (line, file_name) = self.extract_err_meta_stmt(self.current)?;
+                    return Err(RuntimeError(line, file_name, "Unexpected '}'".to_string()));
+                }
                 self.current += 1;
                 // BlockEnd means all statements in this blocks scope were interpreted
                 // so destroying scope created by Stmt::BlockStart
@@ -196,7 +220,7 @@ impl<'a, T: 'a + IO> Interpreter<'a, T> {
             _ => {
                 let (line, file_name) = self.extract_err_meta_stmt(self.current)?;
                 return Err(PakhiErr::RuntimeError(line, file_name,
-                              format!("Debug Statement {:#?}", self.statements[self.current])));
+                              format!("Debug Statement {:#?}", self.stmt_at(self.current))));
             },
         }
         Ok(())
@@ -665,7 +689,7 @@ impl<'a, T: 'a + IO> Interpreter<'a, T> {
         self.current += 1;
 
         if let parser::Stmt::Expression(parser::Expr::Call(function, _, _),
-                                        line, file_name) = self.statements[self.current].clone()
+                                        line, file_name) = self.stmt_at(self.current).clone()
         {
             match *function.expr {
                 parser::Expr::Primary(parser::Primary::Var(func_token), line, file_name) => {
@@ -713,7 +737,7 @@ impl<'a, T: 'a + IO> Interpreter<'a, T> {
             let (line, file_name) = self.extract_err_meta_stmt(self.statements.len() - 1)?;
             return Err(RuntimeError(line, file_name, "Unexpected error at function call".to_string()));
         }
-        if let parser::Stmt::Return(_, _, _) = self.statements[self.current].clone() {
+        if let parser::Stmt::Return(_, _, _) = self.stmt_at(self.current).clone() {
            self.current += 1;
         } else {
             let (line, file_name) = self.extract_err_meta_stmt(self.statements.len() - 1)?;
@@ -748,7 +772,10 @@ impl<'a, T: 'a + IO> Interpreter<'a, T> {
     }
 
     fn interpret_else_stmt(&mut self) -> Result<(), PakhiErr> {
-        assert!(!self.previous_if_was_executed.is_empty());
+        if self.previous_if_was_executed.is_empty() {
+            let (line, file_name) = self.extract_err_meta_stmt(self.current)?;
+            return Err(RuntimeError(line, file_name, "অথবা without যদি".to_string()));
+        }
 
         // consuming else token
         self.current += 1;
@@ -769,11 +796,11 @@ impl<'a, T: 'a + IO> Interpreter<'a, T> {
         let mut stack: Vec<char> = Vec::new();
 
         while self.current < self.statements.len() {
-            if let parser::Stmt::BlockStart(_, _) = self.statements[self.current] {
+            if let parser::Stmt::BlockStart(_, _) = *self.stmt_at(self.current) {
                 stack.push('{');
             }
 
-            if let parser::Stmt::BlockEnd(_, _) = self.statements[self.current] {
+            if let parser::Stmt::BlockEnd(_, _) = *self.stmt_at(self.current) {
                 let previous = stack.pop();
                 match previous {
                     Some(_) => {
@@ -800,7 +827,7 @@ impl<'a, T: 'a + IO> Interpreter<'a, T> {
     fn skip_block_in_if(&mut self) -> Result<(), PakhiErr> {
         self.skip_block()?;
 
-        match self.statements[self.current] {
+        match *self.stmt_at(self.current) {
             parser::Stmt::Else(_, _) => {},
             _ => { self.previous_if_was_executed.pop(); },
         }
@@ -1128,7 +1155,7 @@ impl<'a, T: 'a + IO> Interpreter<'a, T> {
 
         // jumping to function start and starting executing statements in function body
 
-        match &self.statements[self.current] {
+        match self.stmt_at(self.current) {
             parser::Stmt::BlockStart(_, _) => {},
             // TODO show file name and line number by matching all enum variant
             _ => self.io.panic(PakhiErr::UnexpectedError("Expected '{'".to_string())),
@@ -1138,19 +1165,19 @@ impl<'a, T: 'a + IO> Interpreter<'a, T> {
         // interpreting all statements inside function body
         // assuming self.current was set at function start
         loop {
-            if let parser::Stmt::Return(_, _, _) = self.statements[self.current].clone() {
+            if let parser::Stmt::Return(_, _, _) = self.stmt_at(self.current).clone() {
                 break;
             } else {
                 self.interpret()?;
             }
         }
 
-        if let parser::Stmt::Return(expr, _, _) = self.statements[self.current].clone() {
+        if let parser::Stmt::Return(expr, _, _) = self.stmt_at(self.current).clone() {
             let return_val = self.interpret_expr(expr);
             self.current = self.return_addrs.pop().unwrap();
 
             let env_count_after_fn_call = self.scopes.len();
-            let envs_created_inside_fn = env_count_after_fn_call - env_count_before_fn_call;
+            let envs_created_inside_fn = env_count_after_fn_call.saturating_sub(env_count_before_fn_call);
             for _ in 0..envs_created_inside_fn {
                 // return can also happen mid function without reaching blockEnd '}' statement
                 // so half used env must be destroyed manually
